@@ -1439,3 +1439,23 @@ package ice
 //@ // ---- C02: every re-encoded location carries the merged id of its own field ----
 //@ func mergeTermFreqNormLocs
 //@   at call:(github.com/blugelabs/bluge_segment_api.Location).End#1 lemma[C02] args[0] == fieldsMap[ite(isLoc(loc), cast(loc, "*Location").field, locField(loc))] - 1
+//@
+//@ // ---- C06/C02: the re-encode path starts every document with an empty value table ----
+//@ // (vals is shared by all input segments of the merge; a slot left over from an earlier
+//@ // document would be re-encoded under the current one)
+//@ func mergeStoredAndRemapSegment
+//@   loop 1 invariant[C02,C06] 0 <= i && i <= len(fieldsInv) && forall(k, 0, i, len(vals[k]) == 0)
+//@   at loopexit#1 lemma[C02,C06] forall(k, 0, len(fieldsInv), len(vals[k]) == 0)
+//@
+//@ // ---- C13/C08: the iterator of an empty list is the shared empty iterator, never a reused one ----
+//@ func (*PostingsList).Iterator
+//@   ensures[C08,C13] @empty_list_gives_the_empty_iterator old(p.normBits1Hit == 0 && p.postings == nil) ==> result0 == emptyPostingsIterator && result1 == nil
+//@
+//@ // ---- C19/C08: a failed postings read ends the dictionary walk with that error ----
+//@ func (*DictionaryIterator).Next
+//@   at call:(github.com/blevesearch/vellum.Iterator).Next#0 lemma[C08,C19] i.omitCount || i.err == nil
+//@
+//@ // ---- C05: a delivered posting carries nothing of an earlier one ----
+//@ func (*PostingsIterator).nextAtOrAfter
+//@   lemma[C05] rv != nil && !(i.includeLocs && hasLocs) ==> len(rv.locs) == 0
+//@   ensures[C05] @no_stale_freq_norm result1 == nil && result0 != nil && !i.includeFreqNorm ==> cast(result0, "*Posting").freq == 0 && len(cast(result0, "*Posting").locs) == 0
